@@ -6,6 +6,7 @@ import (
 	"math"
 	"math/big"
 	"runtime/debug"
+	"slices"
 	"strings"
 	"sync"
 
@@ -150,6 +151,36 @@ func gridZoo() []SetChoice {
 				zooChoices = append(zooChoices, SetChoice{Spec: sp, Bases: k.bases})
 			}
 		}
+		// twins: sets whose documents agree in id, point-of-origin numbers (and pointer), corner, root cell size and tile size
+		// but mean different grids: the same two origin numbers under the other axis order, and a root matrix of 2x2 tiles.
+		// A process that has seen one twin must not hand its grid to the other.
+		ta, tb := 1234.25, -777.5
+		for _, sp := range []grid.Spec{
+			{Depth: 4, Cell: 16, Origin: ta, OriginY: &tb},
+			{Depth: 4, Cell: 16, Origin: tb, OriginY: &ta, AxesXY: true},
+			{Depth: 3, Cell: 32, Origin: ta, OriginY: &tb, RootMatrix: 2},
+		} {
+			if gs, err := grid.NewSet(sp); err == nil && gs.BL[0] == sp.Origin && gs.BL[1] == *sp.OriginY {
+				zooClass[sp.String()] = "twin-sets(same numbers, another grid)"
+				zooChoices = append(zooChoices, SetChoice{Spec: sp, Bases: []int{0, 1}}, SetChoice{Spec: sp, Bases: []int{0, 1}})
+			}
+		}
+		// informative members varied: a declared boundingBox anchored in the point of origin whose far corner is slightly off,
+		// orderedAxes spelled differently (the CRS is authoritative). The oracle facts are those of the plain built-in set.
+		for _, sc := range []SetChoice{
+			{Spec: grid.Spec{Name: "NetherlandsRDNewQuad", Meta: 1, MetaSlack: 0.001}, Bases: []int{9, 10, 11, 12}},
+			{Spec: grid.Spec{Name: "WebMercatorQuad", Meta: 1, MetaSlack: -0.0003}, Bases: []int{12, 13, 14}},
+			{Spec: grid.Spec{Name: "EuropeanETRS89_LAEAQuad", Meta: 1, MetaSlack: 0.3}, Bases: []int{8, 10}},
+			{Spec: grid.Spec{Name: "NetherlandsRDNewQuad", Meta: 2, MetaAxes: []string{"Easting", "Northing"}}, Bases: []int{9, 10, 11, 12}},
+			{Spec: grid.Spec{Name: "WebMercatorQuad", Meta: 2, MetaAxes: []string{"Longitude", "Latitude"}}, Bases: []int{12, 13, 14}},
+			{Spec: grid.Spec{Name: "EuropeanETRS89_LAEAQuad", Meta: 2, MetaAxes: []string{"Lon", "Lat"}}, Bases: []int{8, 10}},
+			{Spec: grid.Spec{Name: "NetherlandsRDNewQuad", Meta: 3, MetaSlack: -0.2, MetaAxes: []string{"lat", "lon"}}, Bases: []int{9, 10, 11, 12}},
+		} {
+			if _, err := grid.NewSet(sc.Spec); err == nil {
+				zooClass[sc.Spec.String()] = "informative-members-varied"
+				zooChoices = append(zooChoices, sc)
+			}
+		}
 		noy := -3e8
 		for _, sc := range []SetChoice{
 			{Spec: grid.Spec{Depth: 4, Cell: 16, Origin: 6e8}, Bases: []int{0, 1, 2}},
@@ -207,7 +238,7 @@ func countSet(rec *fw.Recorder, sc *SnapCase) {
 		kind = strings.TrimSuffix(kind, "+repeated-point")
 	}
 	switch kind {
-	case "huge", "zipper", "big", "nest", "moat", "lobes":
+	case "huge", "zipper", "big", "nest", "moat", "lobes", "longflat", "saw":
 		rec.Count("kind:" + kind)
 	}
 	if sc.TMS.Name == "" && sc.TMS.TileWidth&(sc.TMS.TileWidth-1) != 0 {
@@ -215,8 +246,8 @@ func countSet(rec *fw.Recorder, sc *SnapCase) {
 	}
 }
 
-var validKinds = []string{"star", "star", "comb", "sliver", "angle", "rectholes", "spiky", "spiky", "grow", "grow", "border", "angle", "moat", "nest", "lobes"}
-var allKinds = []string{"star", "comb", "sliver", "angle", "rectholes", "spiky", "grow", "junk", "junk", "motif", "motif", "border", "moat", "nest", "lobes"}
+var validKinds = []string{"star", "star", "comb", "sliver", "angle", "rectholes", "spiky", "spiky", "grow", "grow", "border", "angle", "moat", "nest", "lobes", "longflat", "saw"}
+var allKinds = []string{"star", "comb", "sliver", "angle", "rectholes", "spiky", "grow", "junk", "junk", "motif", "motif", "border", "moat", "nest", "lobes", "saw"}
 
 // genSnapCase draws one case; returns nil (and the reason) when the draw has to be skipped.
 func genSnapCase(rng *fw.Rng, pr *Profile) (*SnapCase, string) {
@@ -276,6 +307,12 @@ func genSnapCase(rng *fw.Rng, pr *Profile) (*SnapCase, string) {
 		return nil, "q=0"
 	}
 	kind := fw.Pick(rng, pr.Kinds)
+	if kind == "saw" { // teeth of 1/20 pixel need a finer lattice
+		q = pix / 64
+		if q == 0 {
+			return nil, "q=0"
+		}
+	}
 	if !pr.NoBig && rng.Chance(1, 40) {
 		kind = "big" // structured / large inputs at a low rate (they cost 50-500x a small case)
 	}
@@ -293,6 +330,10 @@ func genSnapCase(rng *fw.Rng, pr *Profile) (*SnapCase, string) {
 	var lp gen.Poly
 	var rings [][]P
 	for try := 0; ; try++ {
+		if kind == "longflat" {
+			lp = gen.LongFlat(rng, int(req.D))
+			break
+		}
 		lp = gen.ByName(kind, rng, W)
 		if !pr.ValidOnly || latticeValid(lp) {
 			break
@@ -357,7 +398,7 @@ func genSnapCase(rng *fw.Rng, pr *Profile) (*SnapCase, string) {
 		}
 		poly[i] = fr
 	}
-	if pr.Repeat && rng.Chance(1, 10) {
+	if pr.Repeat && len(poly) > 0 && rng.Chance(1, 10) {
 		// repeated points: a vertex stored twice (or three times) in a row, by preference an extreme one
 		// (lowest, rightmost, ...: the vertices orientation and containment tests start from), in one or two rings
 		for k := 1 + rng.Intn(2); k > 0; k-- {
@@ -472,6 +513,42 @@ type Obs struct {
 	MaxVertices    int
 	UIDs           []int // requested ids without repetitions (a request may legally name a tile matrix twice)
 	InputModified  bool  // the caller's memory (rings packed in one array with spare capacity) was written to
+	kmpChecked     bool
+	kmpSame        bool
+	kmpNote        string
+}
+
+// kmpAsPinned: does every kmpDeduplicate call of this case return exactly what the code pinned at 2260c2f returns for the
+// same input (hook H4 + oracle.PinnedKmpDeduplicate)? Only then can an invented edge be the known finding KF-F5; any other
+// behaviour of that function is a different defect. The case is run once more with recording on (violations are rare).
+func (o *Obs) kmpAsPinned() (same bool, note string) {
+	if o.kmpChecked {
+		return o.kmpSame, o.kmpNote
+	}
+	o.kmpChecked = true
+	var obs []verifhook.Observation
+	func() {
+		defer func() { _ = recover() }()
+		verifhook.StartObserving()
+		defer func() { obs = verifhook.StopObserving() }()
+		snap.SnapPolygon(o.Case.GeomPolygon(), o.Set.TMS, append([]int{}, o.Case.IDs...), o.Case.Config())
+	}()
+	o.kmpSame = true
+	for i, ob := range obs {
+		if ob.Site != "kmpDeduplicate" {
+			continue
+		}
+		want := oracle.PinnedKmpDeduplicate(ob.In)
+		if !slices.Equal(want, ob.Out) {
+			o.kmpSame = false
+			o.kmpNote = fmt.Sprintf("kmpDeduplicate call %d of %d: for the input %v the pinned code returns %v, this tree returned %v", i+1, len(obs), ob.In, want, ob.Out)
+			break
+		}
+	}
+	if o.kmpSame {
+		o.kmpNote = fmt.Sprintf("%d kmpDeduplicate calls returned what the pinned code returns", len(obs))
+	}
+	return o.kmpSame, o.kmpNote
 }
 
 const centreTol = 64
